@@ -33,6 +33,7 @@ func c17model(c *Ctx) {
 	}
 	m.it.maxDepth = 48
 	var fmtCalls []c17fmtCall
+	refl := &shpModel{c: c, m: m, it: m.it, problems: map[string][]string{}}
 	m.it.stub = func(f *types.Func, recv oval, args []oval) ([]oval, bool) {
 		switch {
 		case isFuncIn(f, "strconv", "AppendFloat") && len(args) == 5:
@@ -43,7 +44,7 @@ func c17model(c *Ctx) {
 			}
 			fv, okf := args[1].(oFloat)
 			if !ok || !okf {
-				return []oval{oTop{"AppendFloat of " + showVal(args[1])}}, true
+				return []oval{oTop{"AppendFloat of " + showVal(args[1]) + " to " + showVal(args[0])}}, true
 			}
 			return []oval{appendVals(dst, []oval{oTokF{fv.r}})}, true
 		case isFuncIn(f, "strconv", "FormatFloat") && len(args) == 4:
@@ -55,7 +56,8 @@ func c17model(c *Ctx) {
 			arr := []oval{oTokF{fv.r}}
 			return []oval{oSlice{typ: types.Typ[types.String], arr: &arr, lo: 0, hi: 1, capEnd: 1}}, true
 		case f.Pkg() != nil && f.Pkg().Path() == "reflect":
-			return []oval{oTop{"reflect value"}}, true
+			// reflection described by go/types (a dispatch table keyed by reflect.Type, say)
+			return refl.reflectStub(f.FullName(), f, recv, args)
 		}
 		return nil, false
 	}
